@@ -743,6 +743,7 @@ def repertoire_sweep(ctx, quick):
                 todo = chunks[::7]
             else:
                 todo = chunks
+            culprits = {}          # known? -> [(char, input, observed)]
             for k, s in enumerate(todo):
                 pad = PADS[k % 3]
                 r, data = via(s, enc, pad)
@@ -750,27 +751,33 @@ def repertoire_sweep(ctx, quick):
                 if r[0] == "ok" and r[1] == s:
                     continue
                 # narrow to the characters
-                culprits = 0
+                found = 0
                 for ch in s:
                     r1, d1 = via(ch, enc, pad)
                     if r1[0] == "ok" and r1[1] == ch:
                         continue
-                    culprits += 1
+                    found += 1
                     # Python's own codec does not give the character back (another character, or bytes it refuses to decode)
                     # and the library shows exactly that
                     back = py_roundtrip(ch, enc)
                     known = ord(ch) in bad and ((r1[0] == "ok" and r1[1] == back) or (r1[0] == "err" and r1[1] == "UnicodeError" and back is None))
-                    if op == "rps":
-                        inp = {"op": "rps", "data": hx(d1) if d1 else "-", "pos": 0, "enc": enc, "pad": pad, "s": cps(ch)}
+                    if op == "rps" and d1:
+                        inp = {"op": "rps", "data": hx(d1), "pos": 0, "enc": enc, "pad": pad, "s": cps(ch)}
+                    elif op == "rps":
+                        inp = {"op": "wps", "s": cps(ch), "enc": enc, "pad": pad}
                     else:
                         inp = {"op": op, "s": cps(ch), "enc": enc}
-                    ctx.fail(sig_codec_asym(enc, asym) if known else f"C19/repertoire/{enc}/{pname}/U+{ord(ch):04X}-does-not-round-trip",
-                             f"{pname} ({enc}): a character the codec encodes is not read back",
-                             inp, _r(r1), cps(ch))
-                if culprits == 0:
+                    culprits.setdefault(known, []).append((ch, inp, _r(r1)))
+                if found == 0:
                     inp = {"op": op, "s": cps(s), "enc": enc, "pad": pad, "pos": 0, "data": hx(data) if data else "-"}
                     ctx.fail(f"C19/repertoire/{enc}/{pname}/string-does-not-round-trip-though-its-characters-do",
                              f"{pname} ({enc}): a string of encodable characters is not read back", inp, _r(r), cps(s))
+            for known, lst in culprits.items():
+                ch, inp, obs = lst[0]
+                allc = " ".join(f"U+{ord(c):04X}" for c, _, _ in lst[:40]) + (" ..." if len(lst) > 40 else "")
+                ctx.fail(sig_codec_asym(enc, asym) if known else f"C19/repertoire/{enc}/{pname}/encodable-character-does-not-round-trip",
+                         f"{pname} ({enc}): {len(lst)} character(s) the codec encodes are not read back: {allc}",
+                         dict(inp, all_failing=allc), obs, cps(ch))
     ctx.extra["codec_not_injective_on"] = {e: [f"U+{c:04X}" for c in sorted(b)] for e, b in asym.items() if b}
     return asym
 
